@@ -216,7 +216,7 @@ PROPS = {
                  "order (30% of quick and all thorough evaluations also against the solo runs). Oracle: every client's projection (its events -> "
                  "sorted lines naming it or its tag, tag normalised) is identical in all schedules, and no step about one client prints anything "
                  "about another. Non-trivial = >=2 conversations, two different schedules, at least one verdict.",
-                 900, 40000, {}, quick_s=80),
+                 1400, 40000, {}, quick_s=85),
     "C08": _spec("protoburst", "65% of the runs are byte-stream runs: Three modes per run: robust (mutated/random byte streams from a recorded valid session, random read boundaries incl. >4096 "
                  "pending, EINTR/EAGAIN on reads, EOF at an arbitrary byte; oracle: no sanitizer report/signal/hang, exit 0, teardown), indiff (A line "
                  "per read vs B same bytes segmented+CRLF+read faults vs C junk interleaved; oracle: outputs equal, junk prints only notices), prefix "
